@@ -33,19 +33,16 @@ enum kOpIndex : uint32_t {
 
 [[nodiscard]]
 static ASMJIT_INLINE uint32_t op_count_from_emit_args(const Operand_& o0, const Operand_& o1, const Operand_& o2, const Operand_* op_ext) noexcept {
+  // The count covers every slot up to the last one that is used, so an operand that follows an empty slot is kept
+  // (the Assembler looks at all six slots, a recorded instruction must not lose what the Assembler would have seen).
   uint32_t op_count = 0;
 
-  if (op_ext[kOp3].is_none()) {
-    if (!o0.is_none()) op_count = 1;
-    if (!o1.is_none()) op_count = 2;
-    if (!o2.is_none()) op_count = 3;
-  }
-  else {
-    op_count = 4;
-    if (!op_ext[kOp4].is_none()) {
-      op_count = 5 + uint32_t(!op_ext[kOp5].is_none());
-    }
-  }
+  if (!o0.is_none()) op_count = 1;
+  if (!o1.is_none()) op_count = 2;
+  if (!o2.is_none()) op_count = 3;
+  if (!op_ext[kOp3].is_none()) op_count = 4;
+  if (!op_ext[kOp4].is_none()) op_count = 5;
+  if (!op_ext[kOp5].is_none()) op_count = 6;
 
   return op_count;
 }
